@@ -39,9 +39,13 @@ func (s *vhIDState) committed() uint64 {
 	return 0
 }
 
-func vhUniverse(n int) []SlabID {
-	ids := []SlabID{vhSlabID(1, 5), vhSlabID(1, 3), vhSlabID(0, 4), vhSlabID(2, 1)}
-	return ids[:n]
+// vhUniverse: owned identifiers over two owners, optionally one temporary.
+func vhUniverse(owned int, temp bool) []SlabID {
+	ids := append([]SlabID{}, []SlabID{vhSlabID(1, 5), vhSlabID(1, 3), vhSlabID(2, 1)}[:owned]...)
+	if temp {
+		ids = append(ids, vhSlabID(0, 4))
+	}
+	return ids
 }
 
 // vhCoherentState installs an arbitrary coherent state.
@@ -109,13 +113,26 @@ func vhIsExternal(err error) bool {
 
 //vh:prop C15 C03
 //vh:stubs codec
-//vh:param ids 3 4
+//vh:param owned 3 3
 //vh:param maxworkers 1 2
 func VH_C15_StorageStep() {
-	nids := vhParam("ids", 2)
+	vhStorageStep(vhUniverse(vhParam("owned", 3), false))
+}
+
+// Same step over a universe with a temporary-address identifier.
+//
+//vh:prop C15 C03
+//vh:stubs codec
+//vh:param owned 1 2
+//vh:param maxworkers 1 2
+func VH_C15_StorageStepTemp() {
+	vhStorageStep(vhUniverse(vhParam("owned", 1), true))
+}
+
+func vhStorageStep(ids []SlabID) {
+	nids := len(ids)
 	base := newVBase()
 	st := vhNewPersistent(base)
-	ids := vhUniverse(nids)
 	states := vhCoherentState(st, base, ids)
 	view := make([]uint64, len(states))
 	for i, s := range states {
